@@ -272,14 +272,14 @@ fn run_scenario(d: &mut Driver, file: &str, log: &[LogMsg], s: &Scenario) -> Res
     let filtered: Vec<&LogMsg> = log.iter().filter(|m| (fs.keep)(m)).collect();
     let mut viol: Vec<(String, String, String)> = vec![];
     let step = |d: &mut Driver, l: &str, viol: &mut Vec<(String, String, String)>| -> Result<Value, DriverErr> {
-        let r = d.step(l, 20)?;
+        let r = d.step(l, 90)?;
         if let Some(p) = r["panic"].as_str() {
             let (loc, msg) = p.split_once('|').unwrap_or((p, ""));
             viol.push(("panic".into(), loc.trim_start_matches("/repo/").to_string(), format!("'{l}' panicked: {msg}")));
         }
         Ok(r)
     };
-    d.step("RESET", 30)?;
+    d.step("RESET", 90)?;
     let open = if s.sorted { format!(r#"C open {{"files":["{file}"],"sort":true}}"#) } else { format!(r#"C open {{"files":["{file}"]}}"#) };
     step(d, &open, &mut viol)?;
     let (ws, we) = WINDOWS[s.window];
